@@ -326,7 +326,7 @@ pub fn run(rep: &Report) {
     );
     rep.assume("crash images for the random-position stop use one random subset per stop; C01 enumerates subsets systematically");
     let n = match rep.tier {
-        Tier::Quick => 1_500u64,
+        Tier::Quick => 4_000u64,
         Tier::Thorough => 60_000u64,
     };
     run_cases(
